@@ -311,6 +311,9 @@ def run(ctx):
     # ---- and the progress dictionary that qsetinfo ships (spec/Progress.tla: mwlib.utils.status.Status)
     from harness import progress
     progress.check(ctx, quick)
+    # ---- and the LRU cache behind collid2qserve (spec/Lru.tla: mwlib.utils.lrucache)
+    from harness import lru
+    lru.check(ctx, quick)
     ctx.assume("header safety is a character-level predicate evaluated by the harness on concrete filenames, not by TLC",
                "the RPC layer is replaced by an in-process proxy with a JSON round trip",
                "assumptions of C16-C18 about the queue driver")
